@@ -10,6 +10,7 @@ import PyttbModel.Lemmas.MLSparseCollapse
 import PyttbModel.Lemmas.MLTucker
 import PyttbModel.Lemmas.MLMttkrpW
 import PyttbModel.Lemmas.MLSparseMttkrp
+import PyttbModel.Lemmas.MLDenseContract
 namespace Pyttb
 
 variable {α : Type}
@@ -210,6 +211,39 @@ theorem C02_norm_dense [CommSemiring α] (A : Dense α) (hA : A.WF) : A.normSq =
 /-- The square of the sparse norm is `Σ_k S[k]²`. -/
 theorem C02_norm_sparse [CommSemiring α] [DecidableEq α] (S : Sparse α) (hS : S.WF) :
     S.normSq = Spec.normSq S.den := ML.sparse_normSq_spec S hS
+
+/-! ### dense collapse / scale -/
+
+/-- Dense `collapse` (matricize with the collapsed modes as columns, reduce every row): for any
+reducer that ignores the order of its arguments the entry at the remaining coordinates is the
+reducer applied to the fiber; all modes collapsed gives a scalar. -/
+theorem C02_collapse_dense [AddMonoid α] (T : Dense α) (hT : T.WF)
+    (dims : Option (List Nat)) (sel : List Nat)
+    (hdims : match dims with
+      | none => sel = List.range T.shape.length
+      | some d => d.Nodup ∧ (∀ x ∈ d, x < T.shape.length) ∧ sel = sdimsOf d)
+    (hne : sel ≠ []) (f : List α → α) (hf : ML.PermInvariant f) :
+    ∃ r, T.collapse (dims.map fun d => d.map Int.ofNat) f = .ok r ∧
+      r.toRes.shape = gather T.shape (complDims T.shape.length sel) ∧
+      ∀ i, InBounds r.toRes.shape i → r.toRes.get i = Spec.collapse T.den sel f i :=
+  ML.dense_collapse_spec T hT dims sel hdims hne f hf
+
+/-- Dense `scale` (both sides matricized with the scaled modes as rows, factor column broadcast,
+folded back): `Y[i] = X[i]·F[i[sel]]`, `sel` = the listed modes in increasing order. -/
+theorem C02_scale_dense [CommSemiring α] (T F : Dense α) (hT : T.WF) (d : List Nat) (hd : d.Nodup)
+    (hN : ∀ x ∈ d, x < T.shape.length) (hF : F.shape = gather T.shape (sdimsOf d)) :
+    ∃ Y, T.scale F (d.map Int.ofNat) = .ok Y ∧ Y.shape = T.shape ∧
+      ∀ i, InBounds T.shape i → Y.get i = Spec.scale T.den F.den (sdimsOf d) i :=
+  ML.dense_scale_spec T F hT d hd hN hF
+
+/-- Dense `contract` of two distinct modes of equal extent: `np.trace` for a matrix (scalar),
+otherwise permute the two modes last, reshape `(m, n, n)` and add the diagonal slices. -/
+theorem C02_contract_dense [AddCommMonoid α] (T : Dense α) (hT : T.WF) (a b : Nat)
+    (ha : a < T.shape.length) (hb : b < T.shape.length) (hab : a ≠ b)
+    (hsz : T.shape.getD a 0 = T.shape.getD b 0) :
+    ∃ r, T.contract a b = .ok r ∧ r.toRes.shape = gather T.shape (complDims T.shape.length [a, b]) ∧
+      ∀ i, InBounds r.toRes.shape i → r.toRes.get i = Spec.contract T.den a b i :=
+  ML.dense_contract_spec T hT a b ha hb hab hsz
 
 /-! ### sparse scale / contract / collapse -/
 
